@@ -91,6 +91,15 @@ CLAIMED = {
             "invariants of all reachable objects (values) are not decided.",
             "typestate (guard-before-mutation) + twin-skeleton agreement + who-writes queries + must-dataflow",
             "DESIGN.md §5 C19", "partial"),
+    "C02": ("other",
+            "Decides the structural clauses of C02: no throw and fenced std::regex use; every optional / expected / variant "
+            "access dominated by its engagement fact (must-dataflow with callee promises); SIMD loads, 8-byte memcpy words, "
+            "masked AVX-512 loads and copies into stack arrays inside their buffers by a dominating guard; a lexicographic "
+            "ranking for the URL parser's state loop and a progress variant for 132 other loops. Out-of-bounds accesses in "
+            "general, integer overflow, leaks, uninitialised reads and the 41 loops without a recognised variant are not decided.",
+            "must-dataflow of guard facts and of normalised comparison facts over per-function CFGs + natural-loop variant "
+            "analysis + state-graph ranking + census queries",
+            "DESIGN.md §5 C02", "partial"),
     "C18": ("other",
             "Decides the structural part of configuration independence: the SSE2 / SSSE3 kernels (also compiled under "
             "AVX-512) of find_next_host_delimiter(_special) and has_tabs_or_newline are decoded exactly (all 65536 byte "
@@ -154,7 +163,7 @@ NOT_APPLICABLE = {
            "no table, ordering, pairing or ownership fact whose breakage is necessary for a violation",
 }
 
-PENDING = {'C02': 'check not built yet in this round (see DESIGN.md §11 build order); not claimed until it is', }   # id -> reason, for properties whose check is not built yet
+PENDING = {}   # id -> reason, for properties whose check is not built yet
 
 
 def main():
